@@ -264,10 +264,17 @@ impl Mempool {
                 )
                 .ok()?;
         }
+        // Block::create drains the transactions. keep them until it has succeeded
+        let pool_before_create = (
+            self.transactions.clone(),
+            self.utxo_map.clone(),
+            self.routing_work_in_mempool,
+            self.new_tx_added,
+        );
         self.add_transaction_if_validates(staking_tx, blockchain)
             .await;
 
-        let mut block = Block::create(
+        let created = Block::create(
             &mut self.transactions,
             previous_block_hash,
             blockchain,
@@ -278,8 +285,18 @@ impl Mempool {
             configs,
             storage,
         )
-        .await
-        .ok()?;
+        .await;
+        let mut block = match created {
+            Ok(block) => block,
+            Err(e) => {
+                warn!("block could not be created : {:?}. keeping the mempool as it was", e);
+                self.transactions = pool_before_create.0;
+                self.utxo_map = pool_before_create.1;
+                self.routing_work_in_mempool = pool_before_create.2;
+                self.new_tx_added = pool_before_create.3;
+                return None;
+            }
+        };
         block.generate().ok()?;
         debug!(
             "block generated with work : {:?} and burnfee : {:?} gts : {:?}",
